@@ -1,5 +1,6 @@
 import QV.Proofs.Algo
 import QV.Props.C09
+import QV.Proofs.EndToEnd
 /-!
 # C16 – Deutsch-Jozsa, Bernstein-Vazirani, Simon circuits meet textbook guarantees
 
@@ -308,5 +309,250 @@ example : Period 2 (fun x => [Bool.xor (x.getD 0 false) (x.getD 1 false)]) [true
   intro x x' hx hx'
   match x, hx, x', hx' with
   | [a, b], _, [c, d], _ => cases a <;> cases b <;> cases c <;> cases d <;> decide
+
+/-! ## End to end: the black box is what the compiler model produces (`QV/Proofs/EndToEnd.lean`)
+
+`C16_full` assumes `XorOracle` / `FunOracle`.  On the decidable class `inXorFragment` of
+`C06.C06_fragment_partial` (one definition `r = e` returning one bit, `e` a tree over the argument bits)
+these hypotheses are theorems about the model of the compiler (`EndToEnd.compile_oracles`); below, the three
+guarantees are restated for the circuits `djGates n q gs`, `bvGates n q gs`, `simonGates n gs` built from the
+**compiled** gate list `gs = s.qc.gates` and the qubit `q` the return name is mapped to, for every successful
+run of `compile … (some [r]) true`.
+
+Simon with a several-bit result is **not** linked: `C06_fragment_partial` / `C03_fragment_partial` are about
+a single definition (one return bit); for definition lists with several return bits only the values of the
+return qubits are proved (`C02.C02_fragment_multi`), not that the scratch qubits come back to zero, and
+`FunOracle`'s `F x` is *everything* the circuit leaves on the non-argument qubits – its period is the
+period of the compiled function only for a clean circuit.  What holds for every compilation is
+`C16_simon_any_compilation`: the guarantee with respect to the period of that leftover map. -/
+
+section EndToEnd
+open QV.Compiler (compile inXorFragment dictGet? CState initState)
+open QV.EndToEnd (predOf)
+
+/-- **Deutsch-Jozsa end to end on the fragment**: for every definition of the class and every successful run of
+the compiler model, with `q` the qubit of the return name, `n` the number of argument bits, `m` the number of
+other qubits: if the denoted predicate is constant the circuit `djGates n q gates` has no amplitude outside
+`y = 0…0` and amplitude `± 2^n` there; if it is balanced the amplitude at `y = 0…0` vanishes. -/
+theorem C16_end_to_end_dj (inputs : List String) (defs : List (String × BExp)) (r : String)
+    (choices : List Nat) (s : CState)
+    (hf : inXorFragment inputs defs [r] = true)
+    (h : (compile inputs defs (some [r]) true).run { choices := choices } = .ok ((), s)) :
+    ∃ q, dictGet? s.qc.qmap r = some q ∧ inputs.length ≤ q ∧ q < s.qc.numQubits ∧
+      ∀ (y rest : List Bool), y.length = inputs.length → rest.length = s.qc.numQubits - inputs.length →
+        (∀ c : Bool, (∀ x : List Bool, x.length = inputs.length → predOf inputs defs r x = c) →
+          (y ≠ zeros inputs.length → run (djGates inputs.length q s.qc.gates.toList) ket0 (y ++ rest) = 0) ∧
+          (∀ b, run (djGates inputs.length q s.qc.gates.toList) ket0
+              (zeros inputs.length ++ embed (s.qc.numQubits - inputs.length) (q - inputs.length) b)
+            = sgn b * sgn c * 2 ^ inputs.length)) ∧
+        (2 * countBits inputs.length (predOf inputs defs r) = 2 ^ inputs.length →
+          run (djGates inputs.length q s.qc.gates.toList) ket0 (zeros inputs.length ++ rest) = 0) := by
+  obtain ⟨q, hq, hge, hlt, _, hO, _⟩ :=
+    EndToEnd.compile_oracles inputs defs [r] choices s hf h r List.mem_cons_self
+  refine ⟨q, hq, hge, hlt, ?_⟩
+  intro y rest hy hr
+  have e : inputs.length + (q - inputs.length) = q := by omega
+  have := C16_full.1 inputs.length (s.qc.numQubits - inputs.length) (q - inputs.length) s.qc.gates.toList
+    (predOf inputs defs r) (by omega) hO y rest hy hr
+  simp only [djAmp, e] at this
+  exact this
+
+/-- **Bernstein-Vazirani end to end on the fragment**: if the denoted predicate is `x ↦ x·sec`, the circuit
+`bvGates n q gates` built from the compiled gate list has no amplitude outside `y = sec` and `± 2^n` there. -/
+theorem C16_end_to_end_bv (inputs : List String) (defs : List (String × BExp)) (r : String)
+    (choices : List Nat) (s : CState)
+    (hf : inXorFragment inputs defs [r] = true)
+    (h : (compile inputs defs (some [r]) true).run { choices := choices } = .ok ((), s)) :
+    ∃ q, dictGet? s.qc.qmap r = some q ∧ inputs.length ≤ q ∧ q < s.qc.numQubits ∧
+      ∀ (sec : List Bool), sec.length = inputs.length →
+        (∀ x : List Bool, x.length = inputs.length → predOf inputs defs r x = dot x sec) →
+        ∀ (y rest : List Bool), y.length = inputs.length → rest.length = s.qc.numQubits - inputs.length →
+          (y ≠ sec → run (bvGates inputs.length q s.qc.gates.toList) ket0 (y ++ rest) = 0) ∧
+          (∀ b, run (bvGates inputs.length q s.qc.gates.toList) ket0
+              (sec ++ embed (s.qc.numQubits - inputs.length) (q - inputs.length) b)
+            = sgn b * 2 ^ inputs.length) := by
+  obtain ⟨q, hq, hge, hlt, _, hO, _⟩ :=
+    EndToEnd.compile_oracles inputs defs [r] choices s hf h r List.mem_cons_self
+  refine ⟨q, hq, hge, hlt, ?_⟩
+  intro sec hs hdot y rest hy hr
+  have e : inputs.length + (q - inputs.length) = q := by omega
+  have := C16_full.2.1 inputs.length (s.qc.numQubits - inputs.length) (q - inputs.length) s.qc.gates.toList
+    (predOf inputs defs r) sec (by omega) hO hs hdot y rest hy hr
+  simp only [bvAmp, e] at this
+  exact this
+
+/-- **Simon end to end on the fragment** (one return bit, so the black box is
+`x ↦ (0…, f x, …0)` on the `m` non-argument qubits): if the denoted predicate `f` is two-to-one with period
+`sec ≠ 0` (`f x = f x' ↔ x' = x ∨ x' = x ⊕ sec`; with one result bit this needs `n ≤ 2`), every outcome `y`
+of `simonGates n gates` with `y·sec = 1` has amplitude 0 and all `y` with `y·sec = 0` are equally likely. -/
+theorem C16_end_to_end_simon (inputs : List String) (defs : List (String × BExp)) (r : String)
+    (choices : List Nat) (s : CState)
+    (hf : inXorFragment inputs defs [r] = true)
+    (h : (compile inputs defs (some [r]) true).run { choices := choices } = .ok ((), s)) :
+    ∃ q, dictGet? s.qc.qmap r = some q ∧ inputs.length ≤ q ∧ q < s.qc.numQubits ∧
+      ∀ (sec : List Bool), sec.length = inputs.length → sec ≠ zeros inputs.length →
+        (∀ x x' : List Bool, x.length = inputs.length → x'.length = inputs.length →
+          (predOf inputs defs r x = predOf inputs defs r x' ↔ (x' = x ∨ x' = xorBits x sec))) →
+        ∀ (y : List Bool), y.length = inputs.length →
+          (dot sec y = true → ∀ z : List Bool, z.length = s.qc.numQubits - inputs.length →
+            simonAmp inputs.length s.qc.gates.toList (y ++ z) = 0) ∧
+          (∀ y' : List Bool, y'.length = inputs.length → dot sec y = false → dot sec y' = false →
+            simonWeight inputs.length (s.qc.numQubits - inputs.length) s.qc.gates.toList y
+              = simonWeight inputs.length (s.qc.numQubits - inputs.length) s.qc.gates.toList y' ∧
+            ∀ x0 : List Bool, x0.length = inputs.length →
+              simonAmp inputs.length s.qc.gates.toList
+                (y ++ embed (s.qc.numQubits - inputs.length) (q - inputs.length) (predOf inputs defs r x0)) ^ 2 = 4) := by
+  obtain ⟨q, hq, hge, hlt, _, _, hF⟩ :=
+    EndToEnd.compile_oracles inputs defs [r] choices s hf h r List.mem_cons_self
+  refine ⟨q, hq, hge, hlt, ?_⟩
+  intro sec hs hz hp y hy
+  exact C16_full.2.2.1 inputs.length (s.qc.numQubits - inputs.length) s.qc.gates.toList _ sec hF
+    (EndToEnd.period_embed (by omega) hs hz hp) y hy
+
+/-- **C16 end to end on the fragment**: the three guarantees for the circuits built from what the compiler
+model produces, for every definition of `inXorFragment` and every successful run -/
+theorem C16_end_to_end_fragment (inputs : List String) (defs : List (String × BExp)) (r : String)
+    (choices : List Nat) (s : CState)
+    (hf : inXorFragment inputs defs [r] = true)
+    (h : (compile inputs defs (some [r]) true).run { choices := choices } = .ok ((), s)) :
+    ∃ q, dictGet? s.qc.qmap r = some q ∧ inputs.length ≤ q ∧ q < s.qc.numQubits ∧
+      -- Deutsch-Jozsa
+      (∀ (y rest : List Bool), y.length = inputs.length → rest.length = s.qc.numQubits - inputs.length →
+        (∀ c : Bool, (∀ x : List Bool, x.length = inputs.length → predOf inputs defs r x = c) →
+          (y ≠ zeros inputs.length → run (djGates inputs.length q s.qc.gates.toList) ket0 (y ++ rest) = 0) ∧
+          (∀ b, run (djGates inputs.length q s.qc.gates.toList) ket0
+              (zeros inputs.length ++ embed (s.qc.numQubits - inputs.length) (q - inputs.length) b)
+            = sgn b * sgn c * 2 ^ inputs.length)) ∧
+        (2 * countBits inputs.length (predOf inputs defs r) = 2 ^ inputs.length →
+          run (djGates inputs.length q s.qc.gates.toList) ket0 (zeros inputs.length ++ rest) = 0)) ∧
+      -- Bernstein-Vazirani
+      (∀ (sec : List Bool), sec.length = inputs.length →
+        (∀ x : List Bool, x.length = inputs.length → predOf inputs defs r x = dot x sec) →
+        ∀ (y rest : List Bool), y.length = inputs.length → rest.length = s.qc.numQubits - inputs.length →
+          (y ≠ sec → run (bvGates inputs.length q s.qc.gates.toList) ket0 (y ++ rest) = 0) ∧
+          (∀ b, run (bvGates inputs.length q s.qc.gates.toList) ket0
+              (sec ++ embed (s.qc.numQubits - inputs.length) (q - inputs.length) b)
+            = sgn b * 2 ^ inputs.length)) ∧
+      -- Simon (one result bit)
+      (∀ (sec : List Bool), sec.length = inputs.length → sec ≠ zeros inputs.length →
+        (∀ x x' : List Bool, x.length = inputs.length → x'.length = inputs.length →
+          (predOf inputs defs r x = predOf inputs defs r x' ↔ (x' = x ∨ x' = xorBits x sec))) →
+        ∀ (y : List Bool), y.length = inputs.length →
+          (dot sec y = true → ∀ z : List Bool, z.length = s.qc.numQubits - inputs.length →
+            simonAmp inputs.length s.qc.gates.toList (y ++ z) = 0) ∧
+          (∀ y' : List Bool, y'.length = inputs.length → dot sec y = false → dot sec y' = false →
+            simonWeight inputs.length (s.qc.numQubits - inputs.length) s.qc.gates.toList y
+              = simonWeight inputs.length (s.qc.numQubits - inputs.length) s.qc.gates.toList y' ∧
+            ∀ x0 : List Bool, x0.length = inputs.length →
+              simonAmp inputs.length s.qc.gates.toList
+                (y ++ embed (s.qc.numQubits - inputs.length) (q - inputs.length) (predOf inputs defs r x0)) ^ 2 = 4)) := by
+  obtain ⟨q, hq, hge, hlt, hdj⟩ := C16_end_to_end_dj inputs defs r choices s hf h
+  obtain ⟨q1, hq1, _, _, hbv⟩ := C16_end_to_end_bv inputs defs r choices s hf h
+  obtain ⟨q2, hq2, _, _, hsi⟩ := C16_end_to_end_simon inputs defs r choices s hf h
+  rw [hq] at hq1 hq2
+  cases hq1; cases hq2
+  exact ⟨q, hq, hge, hlt, hdj, hbv, hsi⟩
+
+/-- **Simon for any compilation** (any definition list, several return bits, any return list, uncomputation
+on or off, any sequence of ancilla choices): if no compiled gate targets an argument qubit, the compiled gate
+list is a Simon black box for `F x` = everything the circuit leaves on the `m = nq - n` non-argument qubits
+(return bits and scratch), and Simon's guarantee holds with respect to the period of **that** map.  (That `F`
+has the period of the compiled function needs the circuit to be clean, which is proved for single
+definitions only.) -/
+theorem C16_simon_any_compilation (inputs : List String) (defs : List (String × BExp))
+    (ret : Option (List String)) (unc : Bool) (choices : List Nat) (s : CState)
+    (h : (compile inputs defs ret unc).run { choices := choices } = .ok ((), s))
+    (htg : ∀ g ∈ s.qc.gates.toList, inputs.length ≤ g.target)
+    (sec : List Bool)
+    (hP : Period inputs.length
+      (fun x => (runClassical s.qc.gates.toList (initState x s.qc.numQubits)).drop inputs.length) sec) :
+    ∀ (y : List Bool), y.length = inputs.length →
+      (dot sec y = true → ∀ z : List Bool, z.length = s.qc.numQubits - inputs.length →
+        simonAmp inputs.length s.qc.gates.toList (y ++ z) = 0) ∧
+      (∀ y' : List Bool, y'.length = inputs.length → dot sec y = false → dot sec y' = false →
+        simonWeight inputs.length (s.qc.numQubits - inputs.length) s.qc.gates.toList y
+          = simonWeight inputs.length (s.qc.numQubits - inputs.length) s.qc.gates.toList y') := by
+  intro y hy
+  have := C16_full.2.2.1 inputs.length (s.qc.numQubits - inputs.length) s.qc.gates.toList _ sec
+    (EndToEnd.compile_funOracle h htg) hP y hy
+  exact ⟨this.1, fun y' hy' hd hd' => (this.2 y' hy' hd hd').1⟩
+
+/-! ### concrete members of the class, compiled by the model -/
+
+/-- `a.0 ⊕ a.1` on two bits: balanced, the Bernstein-Vazirani oracle of the secret `11`, two-to-one with period `11` -/
+def exInputs : List String := ["a.0", "a.1"]
+def exXor : List (String × BExp) := [("_ret", .xor [.sym "a.0", .sym "a.1"])]
+/-- `a.0 ∧ ¬a.0`: constant `False` (compiled with one ancilla: `CX 0→2, X 2, MCX [0,2]→3, X 2, CX 0→2`) -/
+def exConst : List (String × BExp) := [("_ret", .and [.sym "a.0", .not (.sym "a.0")])]
+
+theorem exXor_compiles :
+    ∃ s, (compile exInputs exXor (some ["_ret"]) true).run { choices := [2] } = .ok ((), s) := by
+  have hb : ((compile exInputs exXor (some ["_ret"]) true).run { choices := [2] }).toBool = true := by
+    decide +kernel
+  cases hrun : (compile exInputs exXor (some ["_ret"]) true).run { choices := [2] } with
+  | ok p => exact ⟨p.2, rfl⟩
+  | error e => rw [hrun] at hb; cases hb
+
+/-- kernel evaluation of `compile` with `sortNat` (a `List.mergeSort`) rewritten to insertion sort first -/
+theorem exConst_compiles :
+    ∃ s, (compile exInputs exConst (some ["_ret"]) true).run { choices := [2, 3] } = .ok ((), s) := by
+  have hb : ((compile exInputs exConst (some ["_ret"]) true).run { choices := [2, 3] }).toBool = true := by
+    simp only [compile, exInputs, exConst, Compiler.compileDefs, Compiler.compileExpr, Compiler.compileArgs,
+      EndToEnd.sortNat_eq]
+    decide +kernel
+  cases hrun : (compile exInputs exConst (some ["_ret"]) true).run { choices := [2, 3] } with
+  | ok p => exact ⟨p.2, rfl⟩
+  | error e => rw [hrun] at hb; cases hb
+
+/-- non-vacuity (balanced / Bernstein-Vazirani / Simon): `exXor` is in the class, the model compiles it, it is
+balanced, it is `x ↦ x·11` and two-to-one with period `11`; so the Deutsch-Jozsa circuit built from the model's
+gate list never reads `00`, the Bernstein-Vazirani circuit reads only `11`, and the Simon circuit never reads
+a `y` with `y·11 = 1` -/
+example : ∃ (s : CState) (q : Nat),
+    (compile exInputs exXor (some ["_ret"]) true).run { choices := [2] } = .ok ((), s) ∧
+    dictGet? s.qc.qmap "_ret" = some q ∧
+    (∀ rest : List Bool, rest.length = s.qc.numQubits - 2 →
+      run (djGates 2 q s.qc.gates.toList) ket0 (zeros 2 ++ rest) = 0) ∧
+    (∀ y rest : List Bool, y.length = 2 → rest.length = s.qc.numQubits - 2 → y ≠ [true, true] →
+      run (bvGates 2 q s.qc.gates.toList) ket0 (y ++ rest) = 0) ∧
+    (∀ y z : List Bool, y.length = 2 → z.length = s.qc.numQubits - 2 → dot [true, true] y = true →
+      simonAmp 2 s.qc.gates.toList (y ++ z) = 0) := by
+  obtain ⟨s, hs⟩ := exXor_compiles
+  obtain ⟨q, hq, _, _, hdj, hbv, hsi⟩ :=
+    C16_end_to_end_fragment exInputs exXor "_ret" [2] s (by decide +kernel) hs
+  have hdot : ∀ x : List Bool, x.length = exInputs.length → predOf exInputs exXor "_ret" x = dot x [true, true] := by
+    intro x hx
+    match x, hx with
+    | [a, b], _ => cases a <;> cases b <;> decide +kernel
+  have hper : ∀ x x' : List Bool, x.length = exInputs.length → x'.length = exInputs.length →
+      (predOf exInputs exXor "_ret" x = predOf exInputs exXor "_ret" x' ↔ (x' = x ∨ x' = xorBits x [true, true])) := by
+    intro x x' hx hx'
+    match x, hx, x', hx' with
+    | [a, b], _, [c, d], _ => cases a <;> cases b <;> cases c <;> cases d <;> decide +kernel
+  refine ⟨s, q, hs, hq, ?_, ?_, ?_⟩
+  · intro rest hr
+    exact (hdj [false, false] rest rfl hr).2 (by decide +kernel)
+  · intro y rest hy hr hne
+    exact (hbv [true, true] rfl hdot y rest hy hr).1 hne
+  · intro y z hy hz hd
+    exact (hsi [true, true] rfl (by decide) hper y hy).1 hd z hz
+
+/-- non-vacuity (constant): `exConst` is in the class, the model compiles it, it denotes the constant `False`;
+the Deutsch-Jozsa circuit built from the model's gate list has no amplitude outside `y = 00` -/
+example : ∃ (s : CState) (q : Nat),
+    (compile exInputs exConst (some ["_ret"]) true).run { choices := [2, 3] } = .ok ((), s) ∧
+    dictGet? s.qc.qmap "_ret" = some q ∧
+    ∀ y rest : List Bool, y.length = 2 → rest.length = s.qc.numQubits - 2 → y ≠ zeros 2 →
+      run (djGates 2 q s.qc.gates.toList) ket0 (y ++ rest) = 0 := by
+  obtain ⟨s, hs⟩ := exConst_compiles
+  obtain ⟨q, hq, _, _, hdj⟩ := C16_end_to_end_dj exInputs exConst "_ret" [2, 3] s (by decide +kernel) hs
+  refine ⟨s, q, hs, hq, ?_⟩
+  intro y rest hy hr hne
+  refine ((hdj y rest hy hr).1 false ?_).1 hne
+  intro x hx
+  match x, hx with
+  | [a, b], _ => cases a <;> cases b <;> decide +kernel
+
+end EndToEnd
 
 end QV.C16
